@@ -42,7 +42,7 @@ FAMILIES = [
     (["allow cd *", "allow cd"], ["cd sub", "cd /"]),
     (["allow command *", "allow mytool"], ["command mytool", "command -p mytool deploy"]),
     (["allow ./tool *", "allow ./tool"], ["./tool", "./tool run"]),
-    (["allow mytool"], ["A=1 B=2 mytool", "a[0]=v mytool deploy", "PATH+=:/x mytool"]),
+    (["allow mytool"], ["A=1 B=2 mytool", "a[0]=v mytool deploy", "LIBDIRS+=:/x mytool"]),
 ]
 
 
